@@ -240,6 +240,49 @@ theorem C14_construction_roundtrip (g : Grammar) (hg : gwf g = true) (s : Settin
   exact parse_roundtrip env hc hl hr (construction_no_shift_stop env.g hg s fuelT env.t h)
     (construction_structural_prop env.g hg s fuelT env.t h htt) partialParse fuel ctx r hrun
 
+/-- **Every SHIFT and GOTO target of a constructed table is a state of the table** (all three table types): two of the
+    six clauses of `Cert.total` (`shift_range`, `goto_range` — the runtime's `self.definition.actions(state, ..)` /
+    `goto(state, ..)` never index outside the table), from the invariant `Inv.trans` of `calc_states` and the fact that
+    resolution only removes SHIFT entries and leaves GOTOs alone. -/
+theorem construction_targets_in_range (g : Grammar) (hg : gwf g = true) (s : Settings) (fuel : Nat) (t : Table)
+    (h : build g s fuel = .ok t) :
+    (∀ i a s', Action.shift s' ∈ t.cell i a → s' < t.states.size) ∧
+    (∀ i A s', t.goto g i A = some s' → s' < t.states.size) := by
+  have hG := GW.of_gwf hg
+  obtain ⟨sts, autos, hF⟩ := built_final hG (build_ok h)
+  constructor
+  · intro i a s' hm
+    obtain ⟨st', hst', hm'⟩ := Rustemo.mem_cell hm
+    obtain ⟨st0, h1, h2⟩ := hF.fin i st' hst'
+    obtain ⟨_, hc⟩ := final_cell h2 hm'
+    have hsh : Action.shift s' ∈ st0.actions.getD a [] := by
+      rcases hc with hc | ⟨hc, _⟩ | ⟨_, _, _, _, hc⟩
+      · exact hc
+      · cases hc
+      · cases hc
+    have ha : a < g.nterms := by
+      have hsz := (hF.inv.st i st0 h1).asize
+      rcases Nat.lt_or_ge a st0.actions.size with hlt | hge
+      · omega
+      · rw [Array.getD_eq_getD_getElem?, Array.getElem?_eq_none hge] at hsh
+        simp at hsh
+    rw [hF.size]
+    exact (hF.inv.trans i st0 h1 a s' (.inl ⟨ha, hsh⟩)).1
+  · intro i A s' hgo
+    unfold Table.goto at hgo
+    split at hgo
+    · rename_i hA
+      unfold Table.gotoNt at hgo
+      split at hgo
+      · rename_i st' hst'
+        obtain ⟨st0, h1, h2⟩ := hF.fin i st' hst'
+        obtain ⟨_, f2, _⟩ := finishState_spec h2
+        rw [f2] at hgo
+        rw [hF.size]
+        exact (hF.inv.trans i st0 h1 A s' (.inr ⟨hA, hgo⟩)).1
+      · cases hgo
+    · cases hgo
+
 /-! ## non-vacuity: `S: 'a' S | EMPTY` -/
 
 /-- the grammar of `Props/Example.lean` with its terminal records (STOP, `a`) -/
